@@ -432,7 +432,7 @@ def run(ctx):
     if flags is not None and tab is not None and len(flags) == len(tab["rows"]):
         bad_rows = [tab["rows"][i] for i, f in enumerate(flags) if f == 0]
     # ------------------------------------------------------------------ 3. observation on the real code
-    nprog = {"chain": 200 if quick else 2000, "tree": 90 if quick else 900}
+    nprog = {"chain": 300 if quick else 2400, "tree": 130 if quick else 1100}
     programs = []
     for world in ("chain", "tree"):
         # every operation at least once as the first step, then free programs
